@@ -144,15 +144,64 @@ fn d_check(prev: &Dump, st: &Stmt, next: &Dump) -> Vec<DFail> {
         }
     }
     if !ok {
-        // a failed operation leaves every name and every object as it was
-        // (objects reachable from the names only: a dump also lists what the previous result reached)
         let state = |d: &Dump| {
             let mut r = BTreeSet::new();
             d.vars.iter().chain(d.caps.iter()).for_each(|v| d.reach_into(v, &mut r));
             d.objs.iter().filter(|(k, _)| r.contains(k)).map(|(k, o)| (*k, o.clone())).collect::<Vec<_>>()
         };
-        if prev.vars != next.vars || prev.caps != next.caps || state(prev) != state(next) {
-            fail("error_leaves_state", "the statement raised an error but the heap changed".into(), None);
+        let unchanged = prev.vars == next.vars && prev.caps == next.caps && state(prev) == state(next);
+        // operations that can fail part-way (a comparison / predicate / updater raises in the middle)
+        let part_way = match st.expr() {
+            E::Op(n, a) if matches!(n.as_str(), "sort" | "sortval" | "retainfn" | "updateinc") && a.first().is_some_and(is_path) => Some((n.as_str(), &a[0])),
+            _ => None,
+        };
+        match part_way {
+            None => {
+                // every other failed operation leaves every name and every object as it was
+                // (objects reachable from the names only: a dump also lists what the previous result reached)
+                if !unchanged {
+                    fail("error_leaves_state", "the statement raised an error but the heap changed".into(), None);
+                }
+            }
+            Some((name, target)) => {
+                // what the container holds after the caught failure, seen through the same path
+                // (every alias shows the same object in the dump)
+                let elems = |d: &Dump| -> Option<Vec<String>> {
+                    match eval_path(d, target)? {
+                        V::Ref(id) => match d.objs.get(&id)? {
+                            Obj::List(xs) => xs.iter().map(|x| d.tree(x, 0).map(|t| t.canon())).collect(),
+                            Obj::Map(es) => es.iter().map(|(k, x)| d.tree(x, 0).map(|t| format!("{} -> {}", k.canon(), t.canon()))).collect(),
+                        },
+                        _ => None,
+                    }
+                };
+                if let (Some(before), Some(after)) = (elems(prev), elems(next)) {
+                    let (mut b, mut a) = (before.clone(), after.clone());
+                    b.sort();
+                    a.sort();
+                    match name {
+                        "sort" | "sortval" => {
+                            if a != b {
+                                fail("sort_sorted_perm_stable(failure)", format!("after the failed sort the container does not hold a permutation of its entries: {:?} -> {:?}", before, after), None);
+                            }
+                        }
+                        "retainfn" => {
+                            // a sub-sequence that keeps the untested tail
+                            let mut it = before.iter();
+                            if !after.iter().all(|x| it.any(|y| y == x)) {
+                                fail("error_leaves_state(retain)", format!("after the failed retain the list is not a sub-sequence of what it was: {:?} -> {:?}", before, after), None);
+                            }
+                        }
+                        _ => {
+                            // update: the entries that were there are all still there, in order
+                            // (the default may have been appended, see requests/C14.md (c))
+                            if after.len() < before.len() || after[..before.len()] != before[..] || after.len() > before.len() + 1 {
+                                fail("map_order_inv(failure)", format!("after the failed update: {:?} -> {:?}", before, after), None);
+                            }
+                        }
+                    }
+                }
+            }
         }
         return out;
     }
@@ -291,7 +340,21 @@ fn map_oracle(
     let mut expected: Vec<String> = keys_text(before);
     let mut finding = None;
     match name {
-        "insert" | "update" => {
+        "sortval" => {
+            // a permutation of the entries, ordered by value (numbers / strings), stable
+            let mut idx: Vec<usize> = (0..before.len()).collect();
+            idx.sort_by(|a, b| {
+                if spec_key_lt(&before[*a].1, &before[*b].1) {
+                    std::cmp::Ordering::Less
+                } else if spec_key_lt(&before[*b].1, &before[*a].1) {
+                    std::cmp::Ordering::Greater
+                } else {
+                    std::cmp::Ordering::Equal
+                }
+            });
+            expected = idx.iter().map(|i| before[*i].0.canon()).collect();
+        }
+        "insert" | "update" | "updateinc" => {
             let Some(k) = imm_of(&args[1]) else { return };
             finding = attr(&k);
             if find(&k).is_none() {
